@@ -187,3 +187,15 @@ Definition lz_frame (wlog : N) (cs ck : bool) (lits : bytes) (qs : list eseq) : 
             lenN payload <=? N.min (frame_window' p (lenN regen)) BLOCK_MAX)
     end
   end.
+
+(* a multi-block frame built by the LZ compressor model (content size not declared, so the window is 2^wlog) *)
+From ZV.Codec Require Import EncodeLzFrame.
+Definition lz_frame_blocks (wlog : N) (ck : bool) (pbs : list pblock) : option (bytes * bytes) :=
+  let win := pow2 wlog in
+  let blockMax := N.min win BLOCK_MAX in
+  match pblocks_run true win blockMax {| z_hist := []; z_rep := (1, 4, 8); z_pos := 0 |} pbs with
+  | None => None
+  | Some (ebs, z) =>
+    Some (enc_frame {| fp_windowLog := wlog; fp_contentSize := false; fp_checksum := ck; fp_noDictID := false; fp_magicless := false |} 0 ebs,
+          blocks_content ebs)
+  end.
